@@ -117,8 +117,9 @@ TEXT.update({
   "technique": "symbolic execution of the rustc MIR of DataSetWriter::write, StatefulEncoder and the three uncompressed codecs with z3 deciding each path; the written bytes are read by an independent PS3.5 walker",
   "level": "Per instance of concrete shape and symbolic content: (a) one element through encode_primitive_element - stream == header + value + VR-specific padding byte, header length even and equal to the bytes that follow, "
            "caller-supplied header length ignored, bytes_written == bytes written; (b) token streams through DataSetWriter under both strategies - defined lengths end exactly where they say, undefined ones are closed by the "
-           "matching delimiters, fragments padded to even length. Every instance is also replayed natively and the real bytes walked.",
-  "note": "Date/Time/DateTime and float values, non-default character sets, whole files and deflated syntaxes are outside; the earlier Kani harnesses for the writer ran out of memory (30 GB) and were removed",
+           "matching delimiters, fragments padded to even length; (c) DA/TM/DT elements whose values are built by the real constructors from symbolic arguments - length field exact and even, space padding, "
+           "the count encode_primitive reports equals the bytes it appended. Every instance is also replayed natively and the real bytes walked.",
+  "note": "float values, DS/IS from binary values, non-default character sets, whole files and deflated syntaxes are outside; the earlier Kani harnesses for the writer ran out of memory (30 GB) and were removed",
  },
  "C05": {
   "engine": "K",
